@@ -18,6 +18,8 @@ import (
 
 	"k8s.io/apimachinery/pkg/apis/meta/v1/unstructured"
 
+	"k8s.io/apimachinery/pkg/runtime/schema"
+
 	"github.com/crossplane/crossplane/verifh/kit"
 	"github.com/crossplane/crossplane/verifh/sim"
 	"github.com/crossplane/crossplane/verifh/xrk"
@@ -394,6 +396,49 @@ func (ck *checker) faultCase(h *history, sh shape, snaps []snapshot, si, k int, 
 	}
 }
 
+// staleListCase re-runs from the snapshot taken right after a step's user edit (before its first
+// reconcile) with the reconciler's revision LIST served from the informer store as it was at an
+// earlier snapshot (Gets are current: the informer catches up in between), then settles with a
+// current cache and plays the rest of the history. Judged: two revisions Active at once through a
+// write to an EXISTING revision - the reconciler wrote a stale copy over the current object (the
+// unchanged tree pins such writes to the version it listed, so the API server refuses them).
+// Counted only: every other alarm of the monitor, and two Active revisions through the CREATE of
+// a revision whose namesakes the stale list did not show (the unchanged tree does that when its
+// list misses a whole earlier reconcile) - C14 says nothing about caches, and what a reconcile
+// makes of a list that lacks revisions altogether is outside what it states.
+func (ck *checker) staleListCase(h *history, snaps []snapshot, si, sj int) {
+	c := ck.c
+	caseName := fmt.Sprintf("hist/%s/stale-list/r%d-as-of-r%d", h.Name, si, sj)
+	if !c.Want(caseName) {
+		return
+	}
+	sn := snaps[si]
+	x := newExecution(h, sn.world.Clone(), sn.st.clone(), sn.m.clone())
+	asOf := snaps[sj].world.RV()
+	gk := x.kind.revGK()
+	x.env.lister = x.w.LaggingClient(actorPkgmgr, func(g schema.GroupKind) (int64, bool) { return -asOf, g == gk })
+	r := x.reconcile(-1, sim.OK)
+	x.env.lister = nil
+	x.notes = append(x.notes, fmt.Sprintf("^ reconcile whose revision list was served as of snapshot %d (step %d): err=%v", sj, snaps[sj].step, r.err))
+	x.settle(sn.step, 0, nil, nil)
+	x.runFrom(sn.step + 1)
+	c.Eval(fmt.Sprintf("%s|stale-list|r%d|r%d", h.Name, si, sj), true)
+	c.Count("stale_list_executions", 1)
+	var keep []violation
+	for _, v := range x.m.viol {
+		if strings.HasPrefix(v.key, "O1-two-active-revisions") && strings.Contains(v.what, " create ") {
+			c.Count("stale_list_two_active_by_create_observed_only", 1)
+		} else if strings.HasPrefix(v.key, "O1-two-active-revisions") {
+			v.key += ":stale-copy-written-over-existing-revision"
+			keep = append(keep, v)
+		} else {
+			c.Count("stale_list_other_alarms_observed_only", 1)
+		}
+	}
+	x.m.viol = keep
+	ck.report(caseName, x, map[string]any{"mode": "stale-list", "snapshot": si, "list_as_of_snapshot": sj})
+}
+
 type unit struct {
 	h     *history
 	sh    shape
@@ -409,6 +454,8 @@ func main() {
 	c.Rule = "histories of user edits to one Package (Provider, Configuration, Function): source/tag changes incl. rollbacks to earlier digests, revisionHistoryLimit changes (0, raising, lowering, also in the same edit as a source change), activation policy Automatic/Manual with manual activation by the user, pull policy IfNotPresent/Always/Never, the registry moving a tag to another (also an earlier) digest, registry failures, the revision controller flipping revision health; after each edit the real reconciler runs until a reconcile writes nothing (bound 6, sometimes 1-2: the next edit lands early). 9 fixed base histories (quick: all 9 for Provider, one each for Configuration and Function, whose reconciler is the same code; thorough: 9 x 3 kinds): for every reconcile of the fault-free run EVERY API-call index x 6 outcomes (conflict, 500, timeout, crash-before, crash-after, applied-but-504), then fault-free retries to quiescence and the rest of the history; seeded random histories of all three kinds get the same treatment on a seeded sample of fault positions per reconcile. distinct = (history, reconcile, call, outcome); non-trivial = the fault-free run of the history resolved >= 2 digests and contains a rollback or a history-limit change, and the fault was reached. Avoided inputs: unset spec fields (the CRD defaults them), image references sharing their first 12 characters under pull policy Never, digests sharing their first 12 hex characters, paused packages, revisions with finalizers."
 	c.Rule += " Histories with finalizers: the revision controller holds its finalizer on every revision; the user deletes the current / oldest revision (it lingers Terminating) and the finalizer is released by a later step."
 	c.Rule += " " + "A history with revisionHistoryLimit = max int64."
+	c.Rule += " " + "Digest stability: the real PackageRevisioner over the real registry fetcher against an in-process registry (plain image, OCI index, Docker manifest list under an unmoved tag) whose manifest HEAD answers ok / 429 / 404 / 500 / 405 / without digest header: every successful resolution names the revision of the tag's digest."
+	c.Rule += " " + "Stale revision lists: the first reconcile after each edit of a base history lists revisions as of one or two edits earlier (Gets current); judged: two Active revisions through a write to an existing revision."
 	c.Assumptions = []string{
 		"sim implements the apiserver rules of DESIGN.md 2.2; reads are linearizable (no stale informer cache)",
 		"one package-manager worker per package; user edits land between reconciles, never inside one",
@@ -462,6 +509,10 @@ func main() {
 		wg.Wait()
 	}
 
+	if err := kit.Try(func() { runDigestStability(c) }); err != nil {
+		c.Violate("harness-panic:digest-stability", "digest-stability", err.Error(), nil)
+	}
+
 	// phase B: fault enumeration, one unit per (history, reconcile)
 	var units []unit
 	var crashTotal, crashBase int64
@@ -480,6 +531,32 @@ func main() {
 		}
 	}
 	c.Count("crash_positions_total", crashTotal)
+	// stale revision lists: base histories only; the first reconcile after each edit lists the
+	// revisions as they were before the previous one or two edits were reconciled
+	{
+		ck := &checker{c: c}
+		for i := 0; i < nBase && i < len(hs); i++ {
+			snaps := ff[i].snaps
+			firstOf := map[int]int{}
+			for si := range snaps {
+				if snaps[si].iter == 0 {
+					firstOf[snaps[si].step] = si
+				}
+			}
+			for si := range snaps {
+				if snaps[si].iter != 0 || snaps[si].step == 0 {
+					continue
+				}
+				for back := 1; back <= 2; back++ {
+					if sj, ok := firstOf[snaps[si].step-back]; ok {
+						if err := kit.Try(func() { ck.staleListCase(&hs[i], snaps, si, sj) }); err != nil {
+							c.Violate("harness-panic:stale-list", hs[i].Name, err.Error(), nil)
+						}
+					}
+				}
+			}
+		}
+	}
 	perHist := map[string][]int{}
 	for i := range hs {
 		for si := range ff[i].snaps {
